@@ -48,7 +48,34 @@ fn run<G: AffineRepr>(name: &str) -> String {
     format!("\"{}\": [{}]", name, items.join(",\n  "))
 }
 
+/// Serialized `BulletproofGens` objects (compressed), non-square capacities included.
+pub const GENS_SHAPES: [(usize, usize); 7] = [(0, 1), (1, 1), (1, 2), (2, 1), (3, 2), (8, 1), (4, 3)];
+
+fn gens_blobs<G: AffineRepr>(name: &str) -> String {
+    let mut items = vec![];
+    for (g, p) in GENS_SHAPES.iter() {
+        let bp = BulletproofGens::<G>::new(*g, *p);
+        let mut b = vec![];
+        bp.serialize_compressed(&mut b).unwrap();
+        items.push(format!("\"{}x{}\": \"{}\"", g, p, hexs(&b)));
+    }
+    // one object reached through a history of increases
+    let mut bp = BulletproofGens::<G>::new(1, 2);
+    bp.increase_capacity(3);
+    let mut b = vec![];
+    bp.serialize_compressed(&mut b).unwrap();
+    items.push(format!("\"1x2+inc3\": \"{}\"", hexs(&b)));
+    format!("\"{}\": {{{}}}", name, items.join(",\n  "))
+}
+
 fn main() {
+    if std::env::args().nth(1).as_deref() == Some("gens") {
+        let a = gens_blobs::<ark_secq256k1::Affine>("secq256k1");
+        let b = gens_blobs::<ark_bulletproofs::curve::zorro::G1Affine>("zorro");
+        let c = gens_blobs::<ark_curve25519::EdwardsAffine>("curve25519");
+        println!("{{\n\"_note\": \"serialized BulletproofGens / PedersenGens recorded by fixtures/probe (mode gens) built against the pinned tree b4846a6\",\n{},\n{},\n{}\n}}", a, b, c);
+        return;
+    }
     let a = run::<ark_secq256k1::Affine>("secq256k1");
     let b = run::<ark_bulletproofs::curve::zorro::G1Affine>("zorro");
     let c = run::<ark_curve25519::EdwardsAffine>("curve25519");
